@@ -150,6 +150,45 @@ func buildOverlay(cfg *CheckCfg, scratch, patch string) (string, error) {
 		}
 	}
 
+	// other import substitutions: "pkg dir|from import path|shim name"
+	for _, spec := range cfg.ImportRewrite {
+		parts := strings.Split(spec, "|")
+		if len(parts) != 3 {
+			return "", fmt.Errorf("import_rewrite: bad spec %q", spec)
+		}
+		pkg, from, to := parts[0], parts[1], shimImportBase+parts[2]
+		ents, err := os.ReadDir(filepath.Join(repoDir, pkg))
+		if err != nil {
+			return "", fmt.Errorf("import_rewrite: %v", err)
+		}
+		for _, e := range ents {
+			name := e.Name()
+			if e.IsDir() || !strings.HasSuffix(name, ".go") || strings.HasSuffix(name, "_test.go") {
+				continue
+			}
+			rel := filepath.Join(pkg, name)
+			src := filepath.Join(repoDir, rel)
+			if cur, ok := replace[src]; ok {
+				src = cur // already patched or sync-rewritten
+			}
+			out, changed, err := rewriteImports(src, map[string]string{from: to})
+			if err != nil {
+				return "", fmt.Errorf("import_rewrite %s: %v", rel, err)
+			}
+			if !changed {
+				continue
+			}
+			dst := filepath.Join(rdir, "ir", rel)
+			if err := os.MkdirAll(filepath.Dir(dst), 0o755); err != nil {
+				return "", err
+			}
+			if err := os.WriteFile(dst, out, 0o644); err != nil {
+				return "", err
+			}
+			replace[filepath.Join(repoDir, rel)] = dst
+		}
+	}
+
 	ov := filepath.Join(scratch, "overlay-"+cfg.ID+".json")
 	buf, _ := json.MarshalIndent(map[string]any{"Replace": replace}, "", " ")
 	if err := os.WriteFile(ov, buf, 0o644); err != nil {
